@@ -51,7 +51,9 @@ META_EXTRA = "SRC (copying an inplace_function never relocates its const source)
 META = (META[0] + " " + META_EXTRA, META[1])
 META = (META[0] + " SIB; INITFORM (make_from_tuple); LIFE / L5 over inplace_function's members.", META[1])
 
-META = (META[0] + ' FWDMOVE (a forwarding-reference parameter is forwarded, never moved; forward_like is the one named exception).', META[1])
+META = (META[0] + ' FWDMOVE (a forwarding-reference parameter is forwarded, never moved; forward_like is the one named exception); TYPEDFUN (the element comparisons of pair / tuple never convert one side to the element type of the other side first).', META[1])
+
+META = (META[0] + ' FIELDSWAP (a member swap of a plain aggregate exchanges every data member with the other object individually).', META[1])
 
 
 def run(chk, tier):
@@ -62,6 +64,12 @@ def run(chk, tier):
     _SB.check(chk, db, ['_functional/', '_tuple/', '_utility/pair'])      # SIB: cv/ref-qualified overloads of one member agree
     _SB.positive_control(chk)
     from ..rules import extra8 as _X8
+    from ..rules import iters as _ITY
+    if _ITY.typed_functor_area(chk, db, ['_tuple/', '_utility/pair']) < 10:      # TYPEDFUN
+        chk.analysis_broken('TYPEDFUN: fewer than 10 two-type-parameter templates in pair / tuple (floor 10)')
+    _ITY.typed_functor_control(chk, D)
+    if _X8.field_swap_area(chk, db, ['_utility/pair', '_tuple/', '_functional/']) < 1:      # FIELDSWAP
+        chk.analysis_broken('FIELDSWAP: pair::swap no longer found')
     if _X8.forward_move_area(chk, db, ['_functional/', '_tuple/', '_utility/']) < 20:      # FWDMOVE
         chk.analysis_broken('FWDMOVE: fewer than 20 functions with a forwarding-reference parameter (floor 20)')
     from ..rules import initform as _IF
